@@ -17,7 +17,7 @@
    preserving; the harness family "anon" checks on every generated history that what the implementation
    produced is such a renaming and evaluates both histories in this model. *)
 From AM Require Import Base.Prelude Base.Order Crdt.Types Crdt.Interp Crdt.Doc Crdt.Local Crdt.Anon Exec.HistExec
-  Crdt.AnonProofs.
+  Crdt.AnonProofs Crdt.AnonCodeProofs.
 Local Open Scope N_scope.
 
 (* the interpretation commutes with renaming, up to shape *)
@@ -61,10 +61,101 @@ Qed.
 (* order preservation on op ids follows from order preservation on the ACTORS that occur, because
    real op ids have a counter >= 1 and the root / head id is not mapped *)
 Theorem C31_actor_order_suffices : forall R ops, wf_ids ops ->
-  (forall a b, In a (map snd (ids_of ops)) -> In b (map snd (ids_of ops)) ->
+  (forall a b, In a (id_actors ops) -> In b (id_actors ops) ->
      bytes_cmp (r_actor R a) (r_actor R b) = bytes_cmp a b) ->
   forall x y, In x (ids_of ops) -> In y (ids_of ops) -> opid_cmp (rn_id R x) (rn_id R y) = opid_cmp x y.
 Proof. exact mono_of_actors. Qed.
 
 Theorem C31_wf_checker_sound : forall ops, wf_ids_b ops = true -> wf_ids ops.
 Proof. exact wf_ids_b_sound. Qed.
+
+(* ---- the hypotheses are the ones the code satisfies ---- *)
+
+(* Anonymization::actor_map (rank in the sorted set of all actors, 8 big-endian bytes after a common
+   prefix): defined on every actor of the table and ORDER PRESERVING, for any prefix *)
+Theorem C31_actor_map_order_preserving : forall prefix l a b,
+  N.of_nat (length (actor_set l)) <= 18446744073709551616 -> In a l -> In b l ->
+  exists x y, anon_actor prefix (actor_set l) a = Ok x /\ anon_actor prefix (actor_set l) b = Ok y /\
+              bytes_cmp x y = bytes_cmp a b.
+Proof. exact anon_actor_mono. Qed.
+
+(* order preservation (not just injectivity) is needed: swapping two actors changes the conflict order *)
+Theorem C31_order_preservation_needed :
+  (forall a b, In a (id_actors conflict_ops) -> In b (id_actors conflict_ops) ->
+     r_actor swap12 a = r_actor swap12 b -> a = b) /\
+  shape (observe (map (rn_op swap12) conflict_ops)) <> shape (observe conflict_ops).
+Proof. exact order_needed. Qed.
+
+(* the structural substitution (keys, mark names) keeps the UTF-8 length of every character, whatever
+   the tables *)
+Theorem C31_key_substitution_keeps_lengths : forall p s, tables_ok p -> Forall valid_char s ->
+  map u8w (struct_string p s) = map u8w s.
+Proof. exact struct_string_u8w. Qed.
+
+(* it is injective and keeps the character classes of shape.rs when no control character is sent to the
+   rank of DEL ... *)
+Theorem C31_key_substitution_injective : forall p s1, tables_ok p -> tables_inj p -> no_del_rank p ->
+  forall s2, Forall valid_char s1 -> Forall valid_char s2 -> struct_string p s1 = struct_string p s2 -> s1 = s2.
+Proof. exact struct_string_inj. Qed.
+
+Theorem C31_key_substitution_keeps_classes : forall p c, tables_ok p -> no_del_rank p -> valid_char c ->
+  kclass (struct_replace p c) = kclass c.
+Proof. exact struct_replace_kclass. Qed.
+
+(* ... which the code does not ensure: a derangement of each alphabet under which TAB and '~' both become
+   U+0020 (structural_character_from_rank returns the rank itself for an original below U+0020, so the rank
+   of DEL comes out as a space): two different keys can become one, and the class changes *)
+Theorem C31_key_substitution_refuted :
+  exists p, tables_ok p /\ tables_inj p /\ tables_derange p /\
+    struct_replace p 9 = struct_replace p 126 /\ kclass (struct_replace p 9) <> kclass 9.
+Proof. exact struct_replace_refuted. Qed.
+
+(* anonymize_scalar keeps the kind and the encoded shape of a value (UTF-8 length of every character of a
+   string, length of bytes, type code of unknown values), whatever is drawn *)
+Theorem C31_values_keep_shape : forall p syn fz fu fb v, tables_ok p -> (forall i, syn i < 128) -> scalar_valid v ->
+  sshape (anon_scalar p syn fz fu fb v) = sshape v.
+Proof. exact anon_scalar_shape. Qed.
+
+(* the finer "retained whitespace" class of shape.rs is not kept: U+00E9 can become U+0085 (whitespace) *)
+Theorem C31_content_class_refuted :
+  exists p, tables_ok p /\ tables_inj p /\ tables_derange p /\ cclass (content_char p 108 233) <> cclass 233.
+Proof. exact content_class_refuted. Qed.
+
+(* the renaming the code builds satisfies the hypotheses of the equivariance theorems, for every prefix,
+   every table without the DEL-rank collision, every value map that keeps shapes and every injective hash map *)
+Theorem C31_code_renaming_good : forall prefix p vals incs fh appl hs,
+  wf_ids (all_ops appl) ->
+  N.of_nat (length (actor_set (hist_actors appl))) <= 18446744073709551616 ->
+  tables_ok p -> tables_inj p -> no_del_rank p ->
+  (forall k, In k (map_keys (all_ops appl)) -> Forall valid_char k) ->
+  (forall o v, In o (all_ops appl) -> op_action o = APut v -> sshape (vals (op_id o) v) = sshape v) ->
+  (forall x y, In x (hist_hashes appl hs) -> In y (hist_hashes appl hs) -> fh x = fh y -> x = y) ->
+  good_hist (code_renaming prefix (actor_set (hist_actors appl)) p vals incs fh) appl hs.
+Proof. exact code_renaming_good. Qed.
+
+Theorem C31_anonymize_preserves_shape : forall prefix p vals incs fh appl hs,
+  wf_ids (all_ops appl) ->
+  N.of_nat (length (actor_set (hist_actors appl))) <= 18446744073709551616 ->
+  tables_ok p -> tables_inj p -> no_del_rank p ->
+  (forall k, In k (map_keys (all_ops appl)) -> Forall valid_char k) ->
+  (forall o v, In o (all_ops appl) -> op_action o = APut v -> sshape (vals (op_id o) v) = sshape v) ->
+  (forall x y, In x (hist_hashes appl hs) -> In y (hist_hashes appl hs) -> fh x = fh y -> x = y) ->
+  let R := code_renaming prefix (actor_set (hist_actors appl)) p vals incs fh in
+  shape (obs_at (rename R appl) (map fh hs)) = shape (obs_at appl hs).
+Proof.
+  intros. apply (shape_obs_at_rn R appl hs). apply code_renaming_good; assumption.
+Qed.
+
+(* ---- non-vacuity: a two-actor history with a text, concurrent inserts, a conflict between a counter and a
+   string on a key that starts with a TAB; the code's renaming with concrete draws ---- *)
+Example C31_hypotheses_nonvacuous : good_hist ex_renaming ex_hist [20; 30] /\ good_on ex_renaming (all_ops ex_hist).
+Proof. split; [exact ex_good|exact (good_hist_on _ _ _ ex_good)]. Qed.
+
+Example C31_shape_nonvacuous :
+  shape (obs_at ex_hist [20; 30]) =
+    [ (OMap, [ [[1]; [12; 1]]; [[1; 1]; [7]; [5; 1; 1]] ]);
+      (OText, [ [[5; 4]]; [[5; 2]]; [[5; 1]] ]) ] /\
+  shape (obs_at (rename ex_renaming ex_hist) [21; 31]) = shape (obs_at ex_hist [20; 30]) /\
+  map ch_actor (rename ex_renaming ex_hist) = [[200; 7; 0; 0; 0; 0; 0; 0; 0; 1]; [200; 7; 0; 0; 0; 0; 0; 0; 0; 0]; [200; 7; 0; 0; 0; 0; 0; 0; 0; 1]] /\
+  map_keys (all_ops (rename ex_renaming ex_hist)) <> map_keys (all_ops ex_hist).
+Proof. repeat split; vm_compute; try reflexivity; discriminate. Qed.
